@@ -123,6 +123,21 @@ class UnitDomain(EffectDomain):
             return self.fork(store, T("contains", a, vals[1]))
         if (name.endswith("BTreeMap::<K, V, A>::remove") or name.endswith("BTreeMap::<K, V, A>::remove_entry")) and len(vals) == 2 and isinstance(a, (Sym, T)):
             return [(TOP, self.with_log(store, ("remove", repr(a), repr(vals[1]))))]
+        if name.endswith("::extend") and ("BTreeMap" in name) and len(args) == 2 and isinstance(a, (Sym, T)):
+            # map.extend(iterator of entries) = one insertion per entry, in order
+            from ..absint import stdmodels
+            src = stdmodels.to_iter(it, args[1], store)
+            if src is not None:
+                outs = []
+                for items, _, st2 in stdmodels.drive(it, src, store):
+                    s3 = st2
+                    for e in items:
+                        if isinstance(e, Agg) and len(e.fields) == 2:
+                            s3 = self.with_log(s3, ("insert", repr(a), repr(e.field(0)), e.field(1)))
+                        else:
+                            raise core.Undecided("a map is extended by entries of unknown shape: %r" % (e,))
+                    outs.append((UNIT, s3))
+                return outs
         if name == "std::iter::Iterator::collect" and "BTreeMap" in (getattr(self, "cur_term", None) or {}).get("callee", {}).get("generics", ""):
             # building a map from an iterator of entries = a fresh map + one insertion per entry, in order;
             # collecting into Option<map> / Result<map, E> stops at the first None / Err
@@ -540,3 +555,33 @@ def compound_pow_summary(facts):
             continue
         res.append({"kind": "ret", "value": o.value, "log": dom.log(o.store), "pc": dom.pc(o.store), "dom": dom, "store": o.store, "site": o.site})
     return res
+
+
+def from_iter_summary(facts):
+    """Summary of `impl FromIterator<(Unit, S)> for Compound` over two symbolic entries: [{kind, log, pc, value}]."""
+    fi = None
+    for b in facts.lib_bodies():
+        if "FromIterator" in b.path and "compound::Compound" in b.path and b.path.endswith("::from_iter"):
+            fi = b
+    if fi is None:
+        return None, None
+    from ..absint.stdmodels import it_list
+
+    def extra(dom, it, name, args, vals, store):
+        if name in ("std::collections::BTreeMap::<K, V>::new", "<std::collections::BTreeMap<K, V> as std::default::Default>::default"):
+            return [(Sym("names"), store)]
+        if (name.endswith("IntoIterator>::into_iter") or name == "std::iter::IntoIterator::into_iter") and vals and vals[0] == Sym("input"):
+            items = [Agg("tuple", None, None, None, (Sym("u%d" % i), Sym("s%d" % i))) for i in range(2)]
+            return [(it_list(items), store)]
+        if name.endswith("::from") and len(vals) == 1 and isinstance(vals[0], Sym) and vals[0].name.startswith("s"):
+            k = vals[0].name[1:]
+            return [(Agg("adt", "compound::State", 0, "State", (Sym("p%s" % k), Sym("x%s" % k))), store)]
+        return None
+    dom = UnitDomain(facts, extra=extra)
+    it = core.Interp(facts, dom, budget=60000)
+    outs = it.run(fi, [Sym("input")], {})
+    res = []
+    for o in outs:
+        res.append({"kind": o.kind, "log": dom.log(o.store), "pc": dom.pc(o.store), "value": o.value, "site": o.site})
+    return fi, res
+
